@@ -17,7 +17,7 @@ from ..geometry import (
     Point, Stretch, UnitEnum, Padding, VerticalAlignmentEnum,
     HorizontalAlignmentEnum, Alignment, Layout,
 )
-from ..utils import is_leaf
+from ..utils import is_leaf, unwrap_text
 
 __all__ = [
     'DFXP_BASE_MARKUP', 'DFXP_DEFAULT_STYLE', 'DFXP_DEFAULT_STYLE_ID',
@@ -220,7 +220,7 @@ class DFXPReader(BaseReader):
         # convert text
         if isinstance(tag, NavigableString):
             # strips indentation whitespace only
-            pattern = re.compile("^(?:[\n\r]+\\s*)?(.+)")
+            pattern = re.compile("^(?:[\n\r]+\\s*)?(.+)", re.DOTALL)
             result = pattern.search(tag)
             if result:
                 # Escaping/unescaping xml entities is the responsibility of the
@@ -228,7 +228,8 @@ class DFXPReader(BaseReader):
                 # content of the tag variable at this point should be a plain
                 # unicode string with xml entities already converted to unicode
                 # characters.
-                tag_text = result.groups()[0]
+                tag_text = unwrap_text(result.groups()[0])
+            if result and tag_text:
                 node = CaptionNode.create_text(
                     tag_text, layout_info=tag.layout_info)
                 self.nodes.append(node)
